@@ -157,4 +157,64 @@ theorem refreshTick_doc {Doc : Type} (f : Facts) (hour fiveMin : Int) (s : RStat
   · rfl
   · cases h : (round f script now 0).2.1 <;> simp [h]
 
+/-! ### only complete documents are ever obtained -/
+
+/-- the document the initialisation ends with is one of the script's healthy answers -/
+theorem initRun_mem {Doc : Type} (f : Facts) (script : List (Outcome Doc)) (t : Int) (i : Nat) (d : Doc)
+    (h : (initRun f script t i).2 = some d) : ∃ dur, Outcome.ok d dur ∈ script := by
+  induction script generalizing t i with
+  | nil => simp [initRun] at h
+  | cons o rest ih =>
+    cases o with
+    | ok d' dur' =>
+      simp only [initRun] at h
+      injection h with h
+      subst h
+      exact ⟨dur', List.mem_cons_self⟩
+    | fail du =>
+      simp only [initRun] at h
+      split at h
+      · obtain ⟨dur, hm⟩ := ih _ _ h; exact ⟨dur, List.mem_cons_of_mem _ hm⟩
+      · split at h
+        · obtain ⟨dur, hm⟩ := ih _ _ h; exact ⟨dur, List.mem_cons_of_mem _ hm⟩
+        · simp at h
+
+theorem round_mem {Doc : Type} (f : Facts) (script : List (Outcome Doc)) (t : Int) (i : Nat) (d : Doc)
+    (h : (round f script t i).2.1 = some d) : ∃ dur, Outcome.ok d dur ∈ script := by
+  obtain ⟨pre, dur, post, e, _, _⟩ := round_some f script t i d h
+  exact ⟨dur, by rw [e]; simp⟩
+
+/-- a healthy outcome of a classified script comes from a 200 answer carrying every required member -/
+theorem classify_ok {Doc : Type} (required : List String) (present : Doc → List String) (a : Answer Doc) (d : Doc) (dur : Int)
+    (h : classify required present a = .ok d dur) : a = .json d dur ∧ ∀ m ∈ required, m ∈ present d := by
+  cases a with
+  | noAnswer x => simp [classify] at h
+  | notMetadata x => simp [classify] at h
+  | json doc du =>
+    simp only [classify] at h
+    split at h
+    · rename_i hc
+      injection h with h1 h2
+      subst h1; subst h2
+      refine ⟨rfl, ?_⟩
+      intro m hm
+      have := List.all_eq_true.mp hc m hm
+      simpa using this
+    · simp at h
+
+theorem mem_classified {Doc : Type} (required : List String) (present : Doc → List String) (answers : List (Answer Doc)) (d : Doc)
+    (dur : Int) (h : Outcome.ok d dur ∈ answers.map (classify required present)) : ∀ m ∈ required, m ∈ present d := by
+  obtain ⟨a, _, ha⟩ := List.mem_map.mp h
+  exact (classify_ok required present a d dur ha).2
+
+/-- an incomplete answer is a failed attempt of the same duration -/
+theorem classify_incomplete {Doc : Type} (required : List String) (present : Doc → List String) (d : Doc) (dur : Int) (m : String)
+    (hm : m ∈ required) (hn : m ∉ present d) : classify required present (.json d dur) = .fail dur := by
+  simp only [classify]
+  split
+  · rename_i hc
+    have := List.all_eq_true.mp hc m hm
+    exact absurd (by simpa using this) hn
+  · rfl
+
 end Oidc.Discovery
